@@ -555,5 +555,132 @@ theorem owner_password_accepted_56 {P : Prims} {H : Hashes} (hp : PrimsAgree P H
     unfold makeOE
     rw [unwrap_wrap hw _ _ (hash56_length hw ..) w.key]
 
+/-! ## Whole objects: every string and every stream of a document -/
+
+/-- the decoder holds the file key the writer used, for the writer's cipher -/
+def Matches (d : Decoder) (c : Cipher) (fileKey : Bytes) : Prop :=
+  match c with
+  | .rc4 => d.method = .v2 ∧ d.keyOf = .ok fileKey
+  | .aes128 => d.method = .aesv2 ∧ d.keyOf = .ok fileKey ∧ fileKey.length = 16
+  | .aes256 => d.method = .aesv3 ∧ d.key = fileKey ∧ fileKey.length = 32
+
+/-- how a conforming writer stores the string / stream data `plain` of object `(id, gen)`: unchanged when
+    the object is exempt (the encryption dictionary; the metadata object when `EncryptMetadata` is false),
+    otherwise Algorithm 1 / 1.A with an arbitrary 16 byte IV -/
+def StoredAs (H : Hashes) (c : Cipher) (fileKey : Bytes) (exempt : Prop) (id gen : Nat) (plain stored : Bytes) : Prop :=
+  (exempt ∧ stored = plain) ∨ (¬ exempt ∧ ∃ iv : Bytes, iv.length = 16 ∧ stored = encryptObject H c fileKey id gen iv plain)
+
+/-- **every string and every stream, every variant**: what the writer stored decrypts to the plaintext -/
+theorem decrypt_stored {P : Prims} {H : Hashes} (hp : PrimsAgree P H) (hw : H.WF) (d : Decoder) (c : Cipher) (fileKey : Bytes)
+    (hm : Matches d c fileKey) (id gen : Nat) (plain stored : Bytes)
+    (hs : StoredAs H c fileKey (Exempt d id gen) id gen plain stored) : decrypt P d id gen stored = .ok plain := by
+  rcases hs with ⟨hx, rfl⟩ | ⟨hx, iv, hiv, rfl⟩
+  · rcases hx with h | ⟨hem, h⟩
+    · exact encrypt_dict_untouched P d id gen _ h
+    · exact metadata_untouched P d id gen _ hem h
+  · cases c with
+    | rc4 => exact decrypt_encrypt_v2 hp hw d fileKey hm.1 hm.2 id gen iv plain hx
+    | aes128 => exact decrypt_encrypt_aesv2 hp hw d fileKey hm.1 hm.2.1 hm.2.2 id gen iv plain hiv hx
+    | aes256 => exact decrypt_encrypt_aesv3 hp hw d fileKey hm.1 hm.2.1 hm.2.2 id gen iv plain hiv hx
+
+mutual
+/-- `stored` is `plain` with every string replaced by a stored form (`R plain stored`), same shape -/
+def EncVal (R : Bytes → Bytes → Prop) : Val → Val → Prop
+  | .str p, .str s => R p s
+  | .atom t, .atom t' => t = t'
+  | .arr ps, .arr ss => EncVals R ps ss
+  | .dict ps, .dict ss => EncKvs R ps ss
+  | _, _ => False
+def EncVals (R : Bytes → Bytes → Prop) : List Val → List Val → Prop
+  | [], [] => True
+  | p :: ps, s :: ss => EncVal R p s ∧ EncVals R ps ss
+  | _, _ => False
+def EncKvs (R : Bytes → Bytes → Prop) : List (Bytes × Val) → List (Bytes × Val) → Prop
+  | [], [] => True
+  | (k, p) :: ps, (k', s) :: ss => k = k' ∧ EncVal R p s ∧ EncKvs R ps ss
+  | _, _ => False
+end
+
+mutual
+theorem decryptVal_enc {P : Prims} {R : Bytes → Bytes → Prop} (d : Decoder) (id gen : Nat)
+    (hR : ∀ p s, R p s → decrypt P d id gen s = .ok p) :
+    ∀ (plain stored : Val), EncVal R plain stored → decryptVal P (some d) id gen stored = .ok plain
+  | .str p, .str s, h => by simp only [EncVal] at h; simp [decryptVal, ctxDecrypt, hR p s h]
+  | .atom t, .atom t', h => by simp only [EncVal] at h; simp [decryptVal, h]
+  | .arr ps, .arr ss, h => by
+    simp only [EncVal] at h; simp [decryptVal, decryptVals_enc d id gen hR ps ss h]
+  | .dict ps, .dict ss, h => by
+    simp only [EncVal] at h; simp [decryptVal, decryptKvs_enc d id gen hR ps ss h]
+  | .str _, .atom _, h | .str _, .arr _, h | .str _, .dict _, h
+  | .atom _, .str _, h | .atom _, .arr _, h | .atom _, .dict _, h
+  | .arr _, .str _, h | .arr _, .atom _, h | .arr _, .dict _, h
+  | .dict _, .str _, h | .dict _, .atom _, h | .dict _, .arr _, h => by simp [EncVal] at h
+theorem decryptVals_enc {P : Prims} {R : Bytes → Bytes → Prop} (d : Decoder) (id gen : Nat)
+    (hR : ∀ p s, R p s → decrypt P d id gen s = .ok p) :
+    ∀ (plain stored : List Val), EncVals R plain stored → decryptVals P (some d) id gen stored = .ok plain
+  | [], [], _ => by simp [decryptVals]
+  | p :: ps, s :: ss, h => by
+    simp only [EncVals] at h
+    simp [decryptVals, decryptVal_enc d id gen hR p s h.1, decryptVals_enc d id gen hR ps ss h.2]
+  | [], _ :: _, h | _ :: _, [], h => by simp [EncVals] at h
+theorem decryptKvs_enc {P : Prims} {R : Bytes → Bytes → Prop} (d : Decoder) (id gen : Nat)
+    (hR : ∀ p s, R p s → decrypt P d id gen s = .ok p) :
+    ∀ (plain stored : List (Bytes × Val)), EncKvs R plain stored → decryptKvs P (some d) id gen stored = .ok plain
+  | [], [], _ => by simp [decryptKvs]
+  | (k, p) :: ps, (k', s) :: ss, h => by
+    simp only [EncKvs] at h
+    simp [decryptKvs, decryptVal_enc d id gen hR p s h.2.1, decryptKvs_enc d id gen hR ps ss h.2.2, h.1]
+  | [], _ :: _, h | _ :: _, [], h => by simp [EncKvs] at h
+end
+
+/-- **an indirect object read from the file**: for every object `(id, gen)` (the id is the one in the object
+    header), every nesting of arrays and dictionaries, every number of strings: `resolve` yields the
+    plaintext value when the decoder matches the writer's cipher and key. Objects of the encryption
+    dictionary and (EncryptMetadata false) of the metadata stream come back unmodified because the writer
+    left them in the clear (`StoredAs` with `Exempt`). Members of object streams are not touched at all. -/
+theorem read_object_plaintext {P : Prims} {H : Hashes} (hp : PrimsAgree P H) (hw : H.WF) (d : Decoder) (c : Cipher)
+    (fileKey : Bytes) (hm : Matches d c fileKey) (compressed : Bool) (id gen : Nat) (plain stored : Val)
+    (hs : if compressed then stored = plain
+          else EncVal (StoredAs H c fileKey (Exempt d id gen) id gen) plain stored) :
+    readObject P (some d) compressed id gen stored = .ok plain := by
+  unfold readObject
+  cases compressed with
+  | true => simp at hs; simp [hs]
+  | false =>
+    simp at hs
+    simp only [Bool.false_eq_true, if_false]
+    exact decryptVal_enc d id gen (fun p s h => decrypt_stored hp hw d c fileKey hm id gen p s h) plain stored hs
+
+/-- **a stream read through `Stream::data`**: decryption first, with the stream's own id, then the filters
+    — so the decoded data is what the filters make of the plaintext the writer encrypted. -/
+theorem decode_stream_plaintext {P : Prims} {H : Hashes} (hp : PrimsAgree P H) (hw : H.WF) (d : Decoder) (c : Cipher)
+    (fileKey : Bytes) (hm : Matches d c fileKey) (id gen : Nat) (filtered stored : Bytes)
+    (filters : List (Bytes → Out Bytes))
+    (hs : StoredAs H c fileKey (Exempt d id gen) id gen filtered stored) :
+    decodeStream P (some d) id gen stored filters = applyFilters filters filtered := by
+  unfold decodeStream ctxDecrypt
+  simp only [decrypt_stored hp hw d c fileKey hm id gen filtered stored hs, Out.bind_ok]
+
+/-- the strings of the encryption dictionary object, whatever they are (`/O`, `/U`, `/OE`, `/UE`, `/Perms`, …),
+    are returned unmodified: no hypothesis on key, method or content -/
+theorem encrypt_dict_object_untouched (P : Prims) (d : Decoder) (id gen : Nat) (h : d.encryptRef = some (id, gen)) (v : Val) :
+    readObject P (some d) false id gen v = .ok v := by
+  unfold readObject
+  simp only [Bool.false_eq_true, if_false]
+  have hR : ∀ p s : Bytes, p = s → decrypt P d id gen s = .ok p := by
+    intro p s e; subst e; exact encrypt_dict_untouched P d id gen _ h
+  have hrefl : ∀ v : Val, EncVal (fun p s => p = s) v v := by
+    intro v
+    exact Val.rec (motive_1 := fun v => EncVal (fun p s => p = s) v v)
+      (motive_2 := fun vs => EncVals (fun p s => p = s) vs vs)
+      (motive_3 := fun kvs => EncKvs (fun p s => p = s) kvs kvs)
+      (motive_4 := fun kv => EncVal (fun p s => p = s) kv.2 kv.2)
+      (fun b => by simp [EncVal]) (fun t => by simp [EncVal]) (fun xs ih => by simpa [EncVal] using ih)
+      (fun kvs ih => by simpa [EncVal] using ih)
+      (by simp [EncVals]) (fun x xs ihx ihxs => by simp [EncVals, ihx, ihxs])
+      (by simp [EncKvs]) (fun kv kvs ihkv ihkvs => by cases kv; simp [EncKvs]; exact ⟨ihkv, ihkvs⟩)
+      (fun k v ih => ih) v
+  exact decryptVal_enc d id gen hR v v (hrefl v)
+
 end Crypt
 
